@@ -27,8 +27,16 @@ Definition init_judge (pc : pcase) (impl : pout) : bool :=
       init_impl_ok m k o (pc_rst pc) r ev reported && (negb (baseline_says m k) || res_beq r ROk)
   end.
 
+Definition is_bus_ev (e : event) : bool := match e with ECmd _ _ | EPixels _ | ERepeat _ _ => true | _ => false end.
+
 Definition reset_judge (pc : pcase) (impl : pout) : bool :=
   let '(r, ev, _, _) := impl in
+  if (0 <=? pc_init_fail pc) && (pc_init_fail pc <=? 1) && pc_rst pc then
+    (* the reset pin itself fails (set_low: k = 0, set_high: k = 1): the error names the pin and nothing was
+       put on the bus *)
+    res_beq r (RErr EInitResetPin) && negb (existsb is_bus_ev ev) &&
+    events_eqb ev (if pc_init_fail pc =? 0 then [ERstLow] else [ERstLow; EDelay 10000; ERstHigh])
+  else
   match r with
   | RErr (ECfg InvalidDisplaySize) | RErr (ECfg InvalidDisplayOffset) => match ev with [] => true | _ => false end
   | _ => reset_first_ok (pc_rst pc) ev
